@@ -182,7 +182,7 @@ async fn visibility(w: &World, rec: &LogRec) -> Vec<Finding> {
 
 pub fn c26(args: Args) {
     let mut run = Run::new(args.clone(), "exploration",
-        "random delete/revive/purge histories over users, groups, service accounts and certificate entries that depend on a user, with simulated time advanced by amounts around the 7-day retention and changelog windows; after every operation a per-entry state machine is checked against the dumps before/after (delete -> recycled incl. cascade, revive only from recycled and restores direct memberships of still-live groups and cascade-deleted dependents, purge tombstones only entries recycled longer than the retention period, tombstones reaped only after the changelog window, nothing returns to live without a revive) and visibility is probed through real searches as a recycle-bin admin; non-trivial = history with an accepted revive of a recycled entry and a purge that tombstoned something; distinct by full op list");
+        "random delete/revive/purge histories over users, groups, service accounts and certificate entries that depend on a user, with simulated time advanced by amounts around the 7-day retention and changelog windows; after every operation a per-entry state machine is checked against the dumps before/after (delete -> recycled incl. cascade, revive only from recycled and restores direct memberships of still-live groups and cascade-deleted dependents, purge tombstones only entries recycled longer than the retention period, tombstones reaped only after the changelog window, nothing returns to live without a revive) and visibility is probed through real searches as a recycle-bin admin; non-trivial = history with an effective delete followed by an accepted revive or by a purge that tombstoned something; distinct by full op list");
     let prof = Profile {
         replicas_min: 1, replicas_max: 1, file_backed: false, ops_min: 25, ops_max: 70, prefill: 0, long_gaps_when_replicated: false, level: kanidmd_lib::constants::DOMAIN_TGT_LEVEL, unique_names: false, home_creates: false, skewed_quarters: 0,
         pop: Pop { persons: 3, services: 1, groups: 3, dyngroups: 0, oauths: 0, certs: 3, names: 6 },
@@ -190,7 +190,7 @@ pub fn c26(args: Args) {
     };
     let after = |w: &World, rec: &LogRec, _s: &SchemaSnap, acc: &mut Acc| lifecycle(w, rec, acc);
     let end = |_w: &World, _q: bool, _s: &[SchemaSnap], _a: &mut Acc| -> Vec<Finding> { Vec::new() };
-    let nt = |w: &World| count_ops(w, "revive") > 0 && w.log.iter().any(|l| l.ok && l.detail.starts_with("purged ") && l.detail != "purged 0");
+    let nt = |w: &World| count_ops(w, "delete") > 0 && (count_ops(w, "revive") > 0 || w.log.iter().any(|l| l.ok && l.detail.starts_with("purged ") && l.detail != "purged 0"));
     let hooks = Hooks { after_op: &after, at_end: &end, nontrivial: &nt, dyn_check: false, quiesce: false, verify_sig: Some("c26/server-verify") };
     let n = args.tier.pick(150, 4000);
     run_histories_ext(&mut run, &args, 26, n, &prof, &hooks, Some(&Ext {
